@@ -408,8 +408,23 @@ func checkWellFormed(r *ev.Run, c *ev.Case, der []byte, cc certCase) (ref *x509.
 	return ref
 }
 
+var ring *ev.Ring
+
+func parseDigest(data []byte) string {
+	got, err := yubiattest.ParseCertificate(data)
+	if got == nil {
+		return fmt.Sprintf("nil err=%v", err != nil)
+	}
+	mh, merr := yubiattest.ModHex(got)
+	return fmt.Sprintf("err=%v sig=%x serial=%v subj=%s iss=%s nb=%v ext=%d pk=%T %v modhex=%q/%v", err != nil, got.Signature, got.SerialNumber, got.Subject.String(), got.Issuer.String(), got.NotBefore.Unix(), len(got.Extensions), got.PublicKey, got.SignatureAlgorithm, mh, merr != nil)
+}
+
 func total(r *ev.Run, c *ev.Case, data []byte, what string) {
 	r.Eval(1)
+	if len(data) < 4096 {
+		d := append([]byte{}, data...)
+		defer func() { ring.Add(r, c, func() string { return parseDigest(d) }, parseDigest(d), hex.EncodeToString(d)) }()
+	}
 	rec := map[string]string{"what": what, "der_hex": hex.EncodeToString(data)}
 	r.Guard(c, "ParseCertificate("+what+")", rec, func() {
 		got, err := yubiattest.ParseCertificate(data)
@@ -458,6 +473,7 @@ func main() {
 		r.Rule("certificates from crypto/x509.CreateCertificate over subject keys {RSA-1024, RSA-2048, P-256, P-384, P-521} x issuer keys {RSA, P-256/384/521} x signature algorithms {SHA256/384/512 with RSA PKCS#1 and PSS, ECDSA with SHA256/384/512} x random subsets of extension kinds {basic constraints, key usage, SKI/AKI, SAN dns/email/ip, EKU incl. unknown, policies, AIA/CRL, Yubico vendor OIDs 3.3/3.7/3.8/3.9} plus the repository's testdata certificates; each: lenient parser vs crypto/x509 field by field, 3 trailing-data variants, NULL-stripped re-encoding (RSA), byte mutations (exhaustive single-byte-flip/delete/truncate at every offset for the first certificates, sampled for the rest), PEM bundles of 0..5, serial-extension values of every length 0..8 (exhaustive first two bytes over a tag/length grid) and sampled 3/4-byte serials. distinct_nontrivial = distinct certificates accepted-and-equal + distinct NULL-stripped encodings accepted + distinct serial values whose ModHex equalled the reference + distinct PEM bundles")
 		r.Assume("crypto/x509.ParseCertificate is the reference for well-formed certificates", "ModHex reference: 16-symbol table cbdefghijklnrtuv over %08x of the unsigned serial")
 		initKeys()
+		ring = ev.NewRing("ParseCertificate", r.Seed, 53)
 		ncert := r.Pick(300, 5000)
 		var pool [][]byte
 		var poolCases []certCase
